@@ -67,7 +67,7 @@ def thread_runs(tier, seed):
     rnd = random.Random(seed)
     u = exportlib.Universe()
     try:
-        roots = ["Root", "Pair", "AlphaBeta", "Wrap<Leaf>", "Wrap<Alpha>", "Al<i32>", "Al<Leaf>", "Esc", "Beta", "alpha2", "Gamma", "Mid", "Other", "Delta"]
+        roots = ["Root", "Pair", "Al2", "AlphaBeta", "Wrap<Leaf>", "Wrap<Alpha>", "Al<i32>", "Al<Leaf>", "Esc", "Beta", "alpha2", "Gamma", "Mid", "Other", "Delta"]
         runs = []
         for nth in (1, 2, 4, 8):
             for rep in range(2 if tier == "quick" else 6):
@@ -159,16 +159,28 @@ def run(tier):
         v.fail({"prop": PROP, "kind": kind, "owner": owner if owner == "universe" else "corpus", "what": what if owner == "universe" else what.split("/")[-1][:1] + "*",
                 "distinct_values": len(distinct)},
                {"owner": owner, "what": what, "source": src, "values": [{"conditions": c, "value": val[:600]} for val, c in distinct.items()]})
+    # call order: every sequence of exports into one shared file (the C05 slice) - histories that reach the
+    # same exported set must leave the same bytes (Trace_Confluence.tla)
+    import exportchecks
+    ostats = {}
+    ores = exportchecks.run_slice("samefile", tier, ostats)
+    for r_ in ores:
+        for b in r_["bad"]:
+            if b["tag"] == "confluence":
+                v.fail({"prop": PROP, "kind": "exported file under call orders", "owner": "universe", "what": "out/shared.ts",
+                        "types": exportchecks.types_in(r_["steps"])},
+                       {"history": exportchecks.describe_steps(r_["steps"]), "other": b.get("other"), "files": r_["blob_texts"]})
     rc = v.finish()
     if differing < 5:
         v.note("only %d types had a different dependencies() order between the builds" % differing)
-    cov = {"states": gr.distinct + a.distinct, "transitions": gr.generated + a.generated, "traces_validated_against_impl": len(recs),
+    cov = {"states": gr.distinct + a.distinct + ostats.get("states", 0), "transitions": gr.generated + a.generated + ostats.get("transitions", 0),
+           "traces_validated_against_impl": len(recs) + len(ores),
            "samples": [{"what": recs[k]["what"], "conditions": [x["cond"] for x in recs[k]["values"]], "value": recs[k]["values"][0]["value"][:200]} for k in range(0, len(recs), max(1, len(recs) // 6))][:6],
            "independent_builds": len(builds), "types": len(units), "observables": len(recs),
            "types_whose_dependency_order_differed_between_builds": differing,
            "items_with_several_statement_orders_in_one_macro_process": multi,
-           "thread_runs": len(truns), "thread_counts": [1, 2, 4, 8], "exhaustive": False,
-           "rule": "observables = {decl, decl_concrete, name, inline, inline_flattened, export_to_string, output_path, DOCS} of every type of the dependency-graph corpus + every exported file, under 2/4 independent from-scratch builds; + every file of the exporter universe exported by 1/2/4/8 threads under shuffled root orders; each observable must have one value (judged by TLC)"}
+           "thread_runs": len(truns), "thread_counts": [1, 2, 4, 8], "call_order_histories": len(ores), "exhaustive": False,
+           "rule": "observables = {decl, decl_concrete, name, inline, inline_flattened, export_to_string, output_path, DOCS} of every type of the dependency-graph corpus + every exported file, under 2/4 independent from-scratch builds; + every file of the exporter universe exported by 1/2/4/8 threads under shuffled root orders; each observable must have one value (judged by TLC); + every sequence of <= 4 exports over 7 types sharing one file: same exported set => same bytes"}
     vlib.write_evidence(PROP, tier, "model_checking", cov,
                         ["an independent build = separate workspace and target directory (the proc-macro runs in a fresh process with fresh hash seeds)",
                          "nondeterminism that never materialises in the explored builds/runs is not observed; the number of types whose dependency order really differed is reported"],
